@@ -12,7 +12,7 @@ EXTRACT = ["FDS", "C02W"]
 BINS = ["c02w"]
 NEEDS_CICADA = True
 ALLOWED_AXIOMS = []
-PINNED = ["C02_full", "C02_wiring", "C02_once_and_shell_holds_nothing", "C02_wait", "C02_wait_order_independent"]
+PINNED = ["C02_full", "C02_wiring", "C02_eof", "C02_once_and_shell_holds_nothing", "C02_wait", "C02_wait_order_independent"]
 TRUSTED = R.TRUSTED
 ASSUMES = R.ASSUMES
 WEIGHTS = {"builtin": 0.12, "notfound": 0.08, "here": 0.12, "from": 0.05, "redir": 0.1, "maxredir": 1, "capture": 0.1,
